@@ -1,5 +1,7 @@
-(* C05 - property theorems only (proofs: C05_Proofs, C05_ProofsCodec, C05_ProofsText). *)
-From HV Require Import Prelude Tracts BpText C05_Model C05_Check C05_Proofs C05_ProofsCodec C05_ProofsText.
+(* C05 - property theorems only (proofs: C05_Proofs, C05_ProofsNp, C05_ProofsCodec, C05_ProofsText,
+   C05_ProofsFile). *)
+From HV Require Import Prelude Tracts BpText C05_Model C05_Check C05_Proofs C05_ProofsNp C05_ProofsCodec
+  C05_ProofsText C05_ProofsFile.
 
 (* _find_blocks returns, for every position, the index i of the first end >= it
    (ends[i] >= p, every earlier end < p); it raises iff some position has no such end *)
@@ -58,11 +60,15 @@ Theorem C05_population_array_all_spec :
 Proof. exact population_array_all_spec. Qed.
 Print Assumptions C05_population_array_all_spec.
 
-(* decoding restores the data, for every order of distinct given labels *)
+(* decoding restores the data, for every order of distinct given labels - as long as the
+   labels (given or present) are at most the 256 that np.uint8 has codes for (the earlier
+   statement had no such bound because the model's codes were unbounded integers; the code
+   raises OverflowError beyond it: C05_encode_error_is_overflow) *)
 Theorem C05_encode_recode_id :
   forall d given,
   (match given with Some g => NoDup g | None => True end) ->
   (forall nsb, In nsb d -> fst (snd nsb) <> [] /\ snd (snd nsb) <> []) ->
+  (length (dedup (given_list given ++ pops_of d)) <= 256)%nat ->
   exists st', encode given (mkbp d None) = Ok st' /\ recode st' = Ok (mkbp d None).
 Proof. exact encode_recode_id. Qed.
 Print Assumptions C05_encode_recode_id.
@@ -89,9 +95,9 @@ Print Assumptions C05_encoded_lookup_commutes.
 (* reading what write() wrote gives the data back: samples, order, labels, chromosomes,
    positions, cM values - for sample names with arbitrary underscores *)
 Theorem C05_bp_roundtrip :
-  forall (parse_int parse_flt : str -> res Z) (fmt_int fmt_flt : Z -> str) (d : ctable),
+  forall (strict : bool) (parse_int parse_flt : str -> res Z) (fmt_int fmt_flt : Z -> str) (d : ctable),
   Forall (wf_sample parse_int parse_flt fmt_int fmt_flt) d -> NoDup (map fst d) ->
-  bp_read parse_int parse_flt None (bp_write fmt_int fmt_flt d) = Ok d.
+  bp_read strict parse_int parse_flt None (bp_write fmt_int fmt_flt d) = Ok d.
 Proof. exact bp_roundtrip. Qed.
 Print Assumptions C05_bp_roundtrip.
 
@@ -99,7 +105,7 @@ Theorem C05_bp_roundtrip_example :
   let d : ctable := [([97; 95; 98], ([mkcb [89] [49] 10 7; mkcb [67] [49] 20 8], [mkcb [67] [49] 20 8]));
                      ([], ([], [mkcb [] [] 0 0]))] in
   Forall (wf_sample toy_parse toy_parse toy_fmt toy_fmt) d /\ NoDup (map fst d) /\
-  bp_read toy_parse toy_parse None (bp_write toy_fmt toy_fmt d) = Ok d.
+  bp_read true toy_parse toy_parse None (bp_write toy_fmt toy_fmt d) = Ok d.
 Proof. exact bp_roundtrip_example. Qed.
 Print Assumptions C05_bp_roundtrip_example.
 
@@ -137,18 +143,291 @@ Print Assumptions C05_holds_codec_sound.
 
 (* read(samples) of a written file: exactly the requested samples that exist, in file order *)
 Theorem C05_bp_roundtrip_subset :
-  forall (parse_int parse_flt : str -> res Z) (fmt_int fmt_flt : Z -> str) (samples : option (list str)) (d : ctable),
+  forall (strict : bool) (parse_int parse_flt : str -> res Z) (fmt_int fmt_flt : Z -> str) (samples : option (list str)) (d : ctable),
   Forall (wf_sample parse_int parse_flt fmt_int fmt_flt) d -> NoDup (map fst d) ->
-  bp_read parse_int parse_flt samples (bp_write fmt_int fmt_flt d) =
+  bp_read strict parse_int parse_flt samples (bp_write fmt_int fmt_flt d) =
   Ok (filter (fun sb => selected samples (fst sb)) d).
 Proof. exact bp_roundtrip_subset. Qed.
 Print Assumptions C05_bp_roundtrip_subset.
 
 (* a comment line (first token starts with '#') changes nothing, wherever it stands *)
 Theorem C05_comments_ignored :
-  forall (parse_int parse_flt : str -> res Z) (samples : option (list str))
+  forall (strict : bool) (parse_int parse_flt : str -> res Z) (samples : option (list str))
          (ls1 : list (list str)) (c : str) (rest : list str) (ls2 : list (list str)),
   first_char_is c_hash c = true ->
-  bp_read parse_int parse_flt samples (ls1 ++ (c :: rest) :: ls2) = bp_read parse_int parse_flt samples (ls1 ++ ls2).
+  bp_read strict parse_int parse_flt samples (ls1 ++ (c :: rest) :: ls2) = bp_read strict parse_int parse_flt samples (ls1 ++ ls2).
 Proof. exact comments_ignored. Qed.
 Print Assumptions C05_comments_ignored.
+
+(* ======================= numpy's bisection (np.searchsorted) ========================= *)
+
+(* np.searchsorted(side='left') as numpy computes it - a branch-free bisection, modelled
+   step by step - is, on an ascending array, the index of the first element >= k *)
+Theorem C05_np_search_is_first_ge :
+  forall arr k, ascending arr = true -> np_search arr k = first_ge arr k.
+Proof. exact np_search_first_ge. Qed.
+Print Assumptions C05_np_search_is_first_ge.
+
+(* on any array, sorted or not, it stays within [0, len] (so _find_blocks' test
+   indices >= len(blocks) is the only way out) *)
+Theorem C05_np_search_in_range :
+  forall arr k, (np_search arr k <= length arr)%nat.
+Proof. exact np_search_le. Qed.
+Print Assumptions C05_np_search_in_range.
+
+Theorem C05_find_blocks_np_is_find_blocks :
+  forall ends ps, ascending ends = true -> find_blocks_np ends ps = find_blocks ends ps.
+Proof. exact find_blocks_np_first_ge. Qed.
+Print Assumptions C05_find_blocks_np_is_find_blocks.
+
+(* outside the documented format (block ends not ascending) the code's answer is not the
+   property's "first block whose end is >= the position" *)
+Theorem C05_np_search_unsorted_differs :
+  first_ge [100; 50; 300] 100 = 0%nat /\ np_search [100; 50; 300] 100 = 2%nat /\
+  find_blocks_np [100; 50; 300] [100] = Ok [2%nat] /\ find_blocks [100; 50; 300] [100] = Ok [0%nat].
+Proof. exact np_search_unsorted_differs. Qed.
+Print Assumptions C05_np_search_unsorted_differs.
+
+Theorem C05_np_search_example :
+  ascending [2; 5; 5; 9] = true /\ map (np_search [2; 5; 5; 9]) [0; 2; 3; 5; 6; 9; 10] = [0; 0; 1; 1; 3; 3; 4]%nat.
+Proof. exact np_search_example. Qed.
+Print Assumptions C05_np_search_example.
+
+(* REFINEMENT: on every table in the documented format the loop nest with numpy's bisection
+   computes the reference lookup ... *)
+Theorem C05_population_array_np_refines :
+  forall d vs req, table_asc d -> population_array_np d vs req = population_array d vs req.
+Proof. exact population_array_np_eq. Qed.
+Print Assumptions C05_population_array_np_refines.
+
+Theorem C05_table_ascb_sound :
+  forall d, table_ascb d = true <-> table_asc d.
+Proof. exact table_ascb_spec. Qed.
+Print Assumptions C05_table_ascb_sound.
+
+(* ... hence the property for the faithful model *)
+Theorem C05_population_array_np_spec :
+  forall d vs req, table_asc d -> NoDup req ->
+  match population_array_np d vs (Some req) with
+  | Ok arr =>
+      Forall2 (fun s row => exists sb, zassoc s d = Some sb /\ cells_ok sb vs row) req arr
+  | Err k =>
+      (k = E_Key /\ exists s, In s req /\ zassoc s d = None) \/
+      (k = E_Value /\ exists s sb, In s req /\ zassoc s d = Some sb /\ uncovered_cell sb vs)
+  end.
+Proof. exact population_array_np_spec. Qed.
+Print Assumptions C05_population_array_np_spec.
+
+Theorem C05_population_array_np_all_spec :
+  forall d vs, table_asc d ->
+  match population_array_np d vs None with
+  | Ok arr => Forall2 (fun nsb row => cells_ok (snd nsb) vs row) d arr
+  | Err k => k = E_Value /\ exists nsb, In nsb d /\ uncovered_cell (snd nsb) vs
+  end.
+Proof. exact population_array_np_all_spec. Qed.
+Print Assumptions C05_population_array_np_all_spec.
+
+(* a request that repeats a sample: one row per distinct sample, first occurrences' order *)
+Theorem C05_population_array_repeated_request :
+  forall d vs req, population_array d vs (Some req) = population_array d vs (Some (dedup req)).
+Proof. exact population_array_repeated_request. Qed.
+Print Assumptions C05_population_array_repeated_request.
+
+Theorem C05_population_array_spec_any :
+  forall d vs req,
+  match population_array d vs (Some req) with
+  | Ok arr =>
+      Forall2 (fun s row => exists sb, zassoc s d = Some sb /\ cells_ok sb vs row) (dedup req) arr
+  | Err k =>
+      (k = E_Key /\ exists s, In s req /\ zassoc s d = None) \/
+      (k = E_Value /\ exists s sb, In s req /\ zassoc s d = Some sb /\ uncovered_cell sb vs)
+  end.
+Proof. exact population_array_spec_any. Qed.
+Print Assumptions C05_population_array_spec_any.
+
+(* ============================= np.uint8 codes ======================================== *)
+
+(* encode fails only with OverflowError and only beyond 256 distinct labels *)
+Theorem C05_encode_error_is_overflow :
+  forall d given k,
+  encode given (mkbp d None) = Err k ->
+  k = E_Overflow /\
+  ((match given with Some g => NoDup g | None => True end) ->
+   (256 < length (dedup (given_list given ++ pops_of d)))%nat).
+Proof. exact encode_error_is_overflow. Qed.
+Print Assumptions C05_encode_error_is_overflow.
+
+Theorem C05_encode_256_labels :
+  let d := [(0, (wide_strand 256, [mkseg 1000 1 5 0]))] in
+  bind (encode None (mkbp d None)) recode = Ok (mkbp d None).
+Proof. exact encode_256_labels. Qed.
+Print Assumptions C05_encode_256_labels.
+
+Theorem C05_encode_257_labels_overflow :
+  let d := [(0, (wide_strand 256, [mkseg 1256 1 5 0]))] in
+  encode None (mkbp d None) = Err E_Overflow /\
+  (256 < length (dedup (pops_of d)))%nat /\
+  encode_partial None d = [(0, (map (fun i => mkseg (Z.of_nat i) 1 (Z.of_nat i + 1) 0) (seq 0 256), [mkseg 1256 1 5 0]))].
+Proof. exact encode_257_labels_overflow. Qed.
+Print Assumptions C05_encode_257_labels_overflow.
+
+(* outside the codec's domain, stated: a label given twice; a strand without blocks *)
+Theorem C05_encode_repeated_given_collides :
+  let d := [(0, ([mkseg 7 1 10 0; mkseg 9 1 20 0], [mkseg 7 1 10 0]))] in
+  exists st', encode (Some [7; 8; 7]) (mkbp d None) = Ok st' /\
+              blabels st' = Some [(7, 2); (9, 2)] /\ recode st' <> Ok (mkbp d None).
+Proof. exact encode_repeated_given_collides. Qed.
+Print Assumptions C05_encode_repeated_given_collides.
+
+Theorem C05_recode_empty_strand :
+  forall st labels,
+  blabels st = Some labels ->
+  (exists nsb, In nsb (bdata st) /\ (fst (snd nsb) = [] \/ snd (snd nsb) = [])) ->
+  recode st = Err E_Value.
+Proof. exact recode_empty_strand. Qed.
+Print Assumptions C05_recode_empty_strand.
+
+(* ================== write, read, query: the two levels composed ======================= *)
+
+Theorem C05_file_lookup_written :
+  forall strict parse_int parse_flt fmt_int fmt_flt key d qs req,
+  Forall (wf_sample parse_int parse_flt fmt_int fmt_flt) d -> NoDup (map fst d) ->
+  file_lookup strict parse_int parse_flt key (bp_write fmt_int fmt_flt d) qs req =
+  population_array_np (table_of key d) (map (var_of key) qs) (option_map (map key) req).
+Proof. exact file_lookup_written. Qed.
+Print Assumptions C05_file_lookup_written.
+
+(* on the strings of the table: after write + read the label reported for (sample, strand,
+   chromosome, position) is that of the first block of the strand on that chromosome whose end
+   is >= the position; an error is a ValueError with an uncovered cell *)
+Theorem C05_file_lookup_all_spec :
+  forall strict parse_int parse_flt fmt_int fmt_flt key d qs,
+  Forall (wf_sample parse_int parse_flt fmt_int fmt_flt) d -> NoDup (map fst d) ->
+  table_asc (table_of key d) -> inj_on key (strs_of d qs) ->
+  match file_lookup strict parse_int parse_flt key (bp_write fmt_int fmt_flt d) qs None with
+  | Ok arr =>
+      Forall2 (fun sb row =>
+        Forall2 (fun q c => option_map key (clabel_at (fst (snd sb)) (fst q) (snd q)) = Some (fst c) /\
+                            option_map key (clabel_at (snd (snd sb)) (fst q) (snd q)) = Some (snd c)) qs row) d arr
+  | Err k => k = E_Value /\ exists sb q, In sb d /\ In q qs /\
+               (clabel_at (fst (snd sb)) (fst q) (snd q) = None \/ clabel_at (snd (snd sb)) (fst q) (snd q) = None)
+  end.
+Proof. exact file_lookup_all_spec. Qed.
+Print Assumptions C05_file_lookup_all_spec.
+
+Theorem C05_file_lookup_req_spec :
+  forall strict parse_int parse_flt fmt_int fmt_flt key d qs req,
+  Forall (wf_sample parse_int parse_flt fmt_int fmt_flt) d -> NoDup (map fst d) ->
+  table_asc (table_of key d) -> NoDup (map key req) ->
+  match file_lookup strict parse_int parse_flt key (bp_write fmt_int fmt_flt d) qs (Some req) with
+  | Ok arr =>
+      Forall2 (fun s row => exists sb, zassoc (key s) (table_of key d) = Some sb /\
+                                       cells_ok sb (map (var_of key) qs) row) req arr
+  | Err k =>
+      (k = E_Key /\ exists s, In s req /\ zassoc (key s) (table_of key d) = None) \/
+      (k = E_Value /\ exists s sb, In s req /\ zassoc (key s) (table_of key d) = Some sb /\
+                                   uncovered_cell sb (map (var_of key) qs))
+  end.
+Proof. exact file_lookup_req_spec. Qed.
+Print Assumptions C05_file_lookup_req_spec.
+
+Theorem C05_file_lookup_example :
+  let d : ctable := [([97], ([mkcb [89] [49] 10 7; mkcb [67] [49] 20 8], [mkcb [67] [49] 20 8]))] in
+  let u := [[97]; [89]; [67]; [49]] in
+  Forall (wf_sample toy_parse toy_parse toy_fmt toy_fmt) d /\ NoDup (map fst d) /\
+  table_asc (table_of (index_of u) d) /\ inj_on (index_of u) (strs_of d [([49], 10); ([49], 11); ([49], 20)]) /\
+  file_lookup false toy_parse toy_parse (index_of u) (bp_write toy_fmt toy_fmt d) [([49], 10); ([49], 11); ([49], 20)] None
+    = Ok [[(1, 2); (2, 2); (2, 2)]].
+Proof. exact file_lookup_example. Qed.
+Print Assumptions C05_file_lookup_example.
+
+(* the key the checker uses is injective on the strings of a case *)
+Theorem C05_index_of_inj :
+  forall u, inj_on (index_of u) u.
+Proof. exact index_of_inj. Qed.
+Print Assumptions C05_index_of_inj.
+
+Theorem C05_label_at_on_strings :
+  forall key l c p, inj_on key (c :: map c_chrom l) ->
+  label_at (map (seg_of key) l) (key c) p = option_map key (clabel_at l c p).
+Proof. exact label_at_seg_of. Qed.
+Print Assumptions C05_label_at_on_strings.
+
+(* field widths ('U6', 'U10'): the reader with the check refuses, never truncates ... *)
+Theorem C05_strict_refuses_long_fields :
+  forall parse_int parse_flt samples ls1 t0 t1 t2 t3 ls2 st,
+  first_char_is c_hash t0 = false -> (6 < length t0 \/ 10 < length t1)%nat ->
+  iter_run true parse_int parse_flt samples ls1 (mkist None SUnbound []) = Ok st ->
+  bp_read true parse_int parse_flt samples (ls1 ++ [t0; t1; t2; t3] :: ls2) = Err E_Value.
+Proof. exact strict_refuses_long_fields. Qed.
+Print Assumptions C05_strict_refuses_long_fields.
+
+(* ... while the reader without it merges two contigs that share their first 10 characters
+   and answers a query with a block of the other one *)
+Theorem C05_legacy_long_chrom_collision_refuted :
+  let c10 := [65; 66; 67; 68; 69; 70; 71; 72; 73; 74] in
+  let c1 := c10 ++ [75] in let c2 := c10 ++ [76] in
+  let d : ctable := [([97], ([mkcb [65] c1 100 0; mkcb [66] c2 50 0; mkcb [67] c2 300 0], [mkcb [65] c1 400 0]))] in
+  let u := [[97]; [65]; [66]; [67]; c1; c2; c10] in
+  let file := bp_write toy_fmt toy_fmt d in
+  clabel_at (fst (snd (nth 0 d ([], ([], []))))) c10 100 = None /\
+  file_lookup false toy_parse toy_parse (index_of u) file [(c10, 100)] None = Ok [[(index_of u [67], index_of u [65])]] /\
+  file_lookup true toy_parse toy_parse (index_of u) file [(c10, 100)] None = Err E_Value.
+Proof. exact legacy_long_chrom_collision_refuted. Qed.
+Print Assumptions C05_legacy_long_chrom_collision_refuted.
+
+(* soundness of the new checker clauses *)
+Theorem C05_holds_lookup_np_sound :
+  forall k req,
+  holds_lookup k = true -> table_ascb (l_tbl k) = true -> l_req k = Some req ->
+  nodupb req = true -> nodupb (map fst (l_tbl k)) = true ->
+  match l_obs k with
+  | Ok arr => Forall2 (fun s row => exists sb, zassoc s (l_tbl k) = Some sb /\ cells_ok sb (l_vs k) row) req arr
+  | Err _ => exists s, In s req /\ (zassoc s (l_tbl k) = None \/
+                                    exists sb, zassoc s (l_tbl k) = Some sb /\ uncovered_cell sb (l_vs k))
+  end.
+Proof. exact holds_lookup_np_sound. Qed.
+Print Assumptions C05_holds_lookup_np_sound.
+
+Theorem C05_holds_flookup_sound :
+  forall k req,
+  holds_flookup k = true -> fl_domain k = true -> fl_req k = Some req ->
+  let key := fl_key k in
+  let d := table_of key (fl_tbl k) in
+  let vs := map (var_of key) (fl_qs k) in
+  nodupb (map key req) = true -> nodupb (map fst d) = true ->
+  match fl_obsZ k with
+  | Ok arr => Forall2 (fun s row => exists sb, zassoc s d = Some sb /\ cells_ok sb vs row) (map key req) arr
+  | Err _ => (exists s, In s (map key req) /\
+                (zassoc s d = None \/ exists sb, zassoc s d = Some sb /\ uncovered_cell sb vs))
+             \/ long_chrom (fl_tbl k) = true
+  end.
+Proof. exact holds_flookup_sound. Qed.
+Print Assumptions C05_holds_flookup_sound.
+
+Theorem C05_fl_domain_sound :
+  forall k, fl_domain k = true ->
+  table_asc (table_of (fl_key k) (fl_tbl k)) /\ (fl_strict k = false -> long_chrom (fl_tbl k) = false).
+Proof. exact fl_domain_sound. Qed.
+Print Assumptions C05_fl_domain_sound.
+
+Theorem C05_holds_codec_never_refuses :
+  forall k e, holds_codec k = true -> codec_domain k = true -> e_enc k <> Err e.
+Proof. exact holds_codec_never_refuses. Qed.
+Print Assumptions C05_holds_codec_never_refuses.
+
+Theorem C05_holds_codec_beyond_256 :
+  forall k, holds_codec k = true -> codec_domain0 k = true ->
+  (exists e, e_enc k = Err e /\ 256 < label_count k) \/ e_rec k = Ok (e_tbl k).
+Proof. exact holds_codec_beyond_256. Qed.
+Print Assumptions C05_holds_codec_beyond_256.
+
+(* encoded queries on the faithful model (numpy's bisection), table in the documented format *)
+Theorem C05_encoded_lookup_commutes_np :
+  forall d given st' vs req,
+  table_asc d -> encode given (mkbp d None) = Ok st' ->
+  exists labels, blabels st' = Some labels /\
+    population_array_np (bdata st') vs req =
+      rmap (map (map (pair_map (code_of labels)))) (population_array_np d vs req).
+Proof. exact encoded_lookup_commutes_np. Qed.
+Print Assumptions C05_encoded_lookup_commutes_np.
